@@ -143,7 +143,7 @@ class FreshWorld(World):
         mesh = meshlib.build(mrec.raw, coord=mrec.coord)
         model = self.models[rec.model_i].fresh(mesh)
         sim = simlib.make_sim(rec.type, mesh, model)
-        sim.rho = rec.rho
+        sim.rho = rec.rho.copy() if isinstance(rec.rho, np.ndarray) else rec.rho
         if rec.type == "Elastic":
             sim.Set_Rayleigh_Damping_Coefs(*rec.rayleigh)
         simlib.apply_algo(sim, rec.algo)
@@ -191,7 +191,10 @@ class FreshWorld(World):
             rec = self.sims[op["s"]] if "s" in op else self.sims[0]
             if op["op"] == "gen":
                 used = sorted({r.mesh_i for r in self.sims})
-                return self._finish_op({"op": op["name"]}, op["s"], rec, rng, frng, used[0])
+                out = self._finish_op({"op": op["name"]}, op["s"], rec, rng, frng, used[0])
+                if op.get("force_inplace"):
+                    out["field"] = {"aseed": int(rng.integers(1 << 30)), "inplace": True}
+                return out
             elif op["op"] == "set_iter_last":
                 if not rec.iters:
                     self._queue = []
@@ -297,6 +300,13 @@ class FreshWorld(World):
             op.update(m=mo, name=pn, val=pv)
         elif name == "rho":
             op.update(s=s, val=float(np.round(rng.uniform(0.5, 5.0), 3)))
+            if rec.type in ("Elastic", "Thermal") and len(rec.mesh_hist) == 1 and len(self.meshes) == 1 and rng.random() < 0.4:
+                # a density field (one value per element), either a new array or -- what users do -- the array assigned
+                # before, modified in place and assigned again
+                op["field"] = {"aseed": int(rng.integers(1 << 30)), "inplace": bool(rng.random() < 0.5)}
+                if not getattr(self, "_queue", None):
+                    # then: read, modify the same array in place and assign it again, read
+                    self._queue = [{"op": "read", "s": s}, {"op": "gen", "name": "rho", "s": s, "force_inplace": True}, {"op": "read", "s": s}]
         elif name == "rayleigh":
             op.update(s=s, cm=float(np.round(rng.uniform(0, 0.5), 3)), ck=float(np.round(rng.uniform(0, 0.05), 4)))
         elif name == "translate":
@@ -475,9 +485,26 @@ class FreshWorld(World):
             return "ok"
 
         if name == "rho":
+            if "field" in op:
+                if len(rec.mesh_hist) != 1 or len(self.meshes) != 1:
+                    return "skip"
+                Ne = self.meshes[rec.mesh_i].raw.main[0][1].shape[0]
+                held = getattr(rec, "rho_user", None)
+                if op["field"]["inplace"] and isinstance(held, np.ndarray) and held.shape == (Ne,):
+                    held *= op["val"] / 2.0 + 0.3  # in place: the simulation may hold a reference to this very array
+                    ctx.probe("density_array_modified_in_place_and_assigned_again")
+                else:
+                    held = np.round(arr_rng(op["field"]["aseed"]).uniform(0.5, 5.0, Ne), 3)
+                with ctx.sut():
+                    rec.live.rho = held
+                rec.rho_user = held
+                rec.rho = held.copy()
+                rec.lin_dirty = True
+                return "ok"
             with ctx.sut():
                 rec.live.rho = op["val"]
             rec.rho = op["val"]
+            rec.rho_user = None
             rec.lin_dirty = True
             return "ok"
 
